@@ -130,6 +130,7 @@ pub fn generate(ch: &mut Chunker, prop: &str, thorough: bool, seed: u64, replays
     let scale = if thorough { 12 } else { 1 };
     match prop {
         "STEPS" => gen_steps(ch, &mut r, scale),
+        "USTEPS" => gen_unfill_steps(ch, &mut r, scale),
         "C10" => gen_c10(ch, &mut r, thorough, scale),
         "C11" => gen_c11(ch, &mut r, thorough, scale),
         "C12" => gen_c12(ch, &mut r, thorough, scale),
@@ -377,5 +378,23 @@ fn gen_steps(ch: &mut Chunker, r: &mut Rng, scale: usize) {
             }
             rec_wrap_steps(ch, &text, &o);
         }
+    }
+}
+
+/// unfill() calls recorded step by step (validated against the step machine of spec/MC_Refill.tla by spec/TraceRefill.tla)
+pub fn gen_unfill_steps(ch: &mut Chunker, r: &mut Rng, scale: usize) {
+    for s in all_strings(&['a', ' ', '-', '>', '\n', '\r'], 4) {
+        rec_unfill_steps(ch, &s);
+    }
+    for i in 0..400 * scale {
+        let s = match i % 3 {
+            0 => gen_alpha(r, &['a', ' ', '-', '>', '#', '\n', '\r', '\u{4f60}', '/', '*', '+'], 16),
+            1 => gen_alpha(r, ALPHA_ADVERSARIAL, 14),
+            _ => {
+                let tc = TextCfg { max_words: 4, max_paras: 4, ansi: Ansi::Any, unicode: true, ctrl: true, crlf: i % 2 == 0 };
+                textwrap::indent(&gen_text(r, &tc), *r.pick(PREFIX_INDENTS))
+            }
+        };
+        rec_unfill_steps(ch, &s);
     }
 }
